@@ -80,6 +80,12 @@ def extra(ctx, sc, r):
                     "the run ends by the ping/pong timeout", r["trace"][-300:], size=n)
 
 
+    # once the client has written a close frame (its own close() or the reply to the server's) the run ends: the wait for the
+    # peer's close frame is bounded, whatever the peer goes on sending — it may not sit blocked until the horizon
+    if sc.get("kind") == "act" and not sc.get("rc") and r["trace"].endswith(":blocked") and ":wrote:8:" in r["trace"]:
+        ctx.violate("terminates", appcheck.qualify("blocked-after-own-close-frame", sc), sc,
+                    "run_forever returns within the closing handshake's timeout", r["trace"][-300:], size=n)
+
     # the return value in runs the one-connection Spec does not judge (reconnecting, per-run settings): True exactly when an
     # error of the run was reported to on_error during THIS run
     if sc.get("rc") and sc.get("cbs", appsim.ALL) == appsim.ALL and not sc.get("plan"):
@@ -116,6 +122,9 @@ TAILS = {
     "data-eof": [[10, 0, "t", "6d"], [10, 0, "p", ""], [2000, 0, "e", ""]],
     "data-reply": [[10, 0, "b", "01"], [2990, 0, "q", ""], [500, 0, "c", "03e8"]],
     "data-late": [[3071, 0, "t", "6d"], [3072, 0, "t", "6e"], [1, 0, "c", ""]],
+    # a peer that keeps talking (a frame every second, beyond the horizon of the run) and never answers the close frame: the
+    # closing handshake is given up after its 3 s all the same
+    "chatter": [[1000, 0, "t", "6d"]] * 90,
 }
 
 
